@@ -76,6 +76,8 @@ def merge_vertices(
 
     # collect vertex attributes into sequence we can stack
     stacked = [mesh.vertices * (10**digits_vertex)]
+    # the same values before they were scaled
+    unscaled = [mesh.vertices]
 
     # UV texture visuals require us to update the
     # vertices and normals differently
@@ -89,14 +91,25 @@ def merge_vertices(
         # get an array with vertices and UV coordinates
         # converted to integers at requested precision
         stacked.append(mesh.visual.uv * (10**digits_uv))
+        unscaled.append(mesh.visual.uv)
 
     # check to see if we have vertex normals
     normals = mesh._cache["vertex_normals"]
     if not merge_norm and np.shape(normals) == mesh.vertices.shape:
         stacked.append(normals * (10**digits_norm))
+        unscaled.append(normals)
 
     # stack collected vertex properties and round to integer
     stacked = np.column_stack(stacked).round()
+    # a finite value times a power of ten can overflow to `inf` and all
+    # of them would compare equal: they are whole numbers anyway so use
+    # them as they are, and append which values were replaced so that
+    # they can't be confused with a smaller value that was scaled
+    unscaled = np.column_stack(unscaled)
+    overflow = np.isfinite(unscaled) & ~np.isfinite(stacked)
+    if overflow.any():
+        stacked[overflow] = unscaled[overflow]
+        stacked = np.column_stack((stacked, overflow))
     if np.isfinite(stacked).all() and np.abs(stacked).max() < 2**63:
         stacked = stacked.astype(np.int64)
     else:
